@@ -310,18 +310,25 @@ func parseBasicAuth(auth string) (username, password string, ok bool) {
 	return cs[:s], cs[s+1:], true
 }
 
-func (rp *HTTPReverseProxy) injectRequestInfoToCtx(req *http.Request) *http.Request {
-	user := ""
+// getRequestCredentials returns the basic auth user and password of the request.
+// The same pair is used for routing by http user and for the credential check, so that
+// the route that is checked is the route the request is forwarded to.
+func getRequestCredentials(req *http.Request) (user, passwd string) {
 	// If url host isn't empty, it's a proxy request. Get http user from Proxy-Authorization header.
 	if req.URL.Host != "" {
 		proxyAuth := req.Header.Get("Proxy-Authorization")
 		if proxyAuth != "" {
-			user, _, _ = parseBasicAuth(proxyAuth)
+			user, passwd, _ = parseBasicAuth(proxyAuth)
 		}
 	}
 	if user == "" {
-		user, _, _ = req.BasicAuth()
+		user, passwd, _ = req.BasicAuth()
 	}
+	return
+}
+
+func (rp *HTTPReverseProxy) injectRequestInfoToCtx(req *http.Request) *http.Request {
+	user, _ := getRequestCredentials(req)
 
 	reqRouteInfo := &RequestRouteInfo{
 		URL:        req.URL.Path,
@@ -347,7 +354,7 @@ func (rp *HTTPReverseProxy) ServeHTTP(rw http.ResponseWriter, req *http.Request)
 func (rp *HTTPReverseProxy) serveHTTP(rw http.ResponseWriter, req *http.Request) {
 	domain, _ := httppkg.CanonicalHost(req.Host)
 	location := req.URL.Path
-	user, passwd, _ := req.BasicAuth()
+	user, passwd := getRequestCredentials(req)
 	if !rp.CheckAuth(domain, location, user, user, passwd) {
 		rw.Header().Set("WWW-Authenticate", `Basic realm="Restricted"`)
 		http.Error(rw, http.StatusText(http.StatusUnauthorized), http.StatusUnauthorized)
